@@ -95,6 +95,7 @@ func TestC03InFlightDeduplication(t *testing.T) {
 		"wait", "cancelStream", "cancelStream", "breakStream", "kill",
 		"advance", "advance", "advanceSmall", "tick",
 		"waitParked", "waitParked", "releaseAuth", "releaseAuth",
+		"parkSend", "parkSend", "releaseSend", "releaseSend",
 	}
 	p := &profile{
 		name: "C03", ops: ops, minSteps: 5, maxSteps: 60, instances: []string{"", "a"},
@@ -328,4 +329,34 @@ func TestC14SchedulerLockReleased(t *testing.T) {
 	}
 	runProperty(t, "C14", "schedsim-lock-released",
 		schedRuleCommon+"oracle: after every step the scheduler's lock is free at quiescence (TryLock probe through the verif hook; a leaked lock ends the process with VERIF-VIOLATION because the bubble can no longer drain), in addition to all other scheduler oracles. Non-trivial: at least one call returned an error (rejected Execute, NOT_FOUND WaitExecution, failed Synchronize), at least one client left mid-call and at least one task was assigned; distinct by script hash", p)
+}
+
+// TestC04NoTaskQueuedWhileWorkerWaits decides the last sentence of C04 in
+// worlds with operator interference: "a task arriving while workers are
+// blocked waiting for work is handed straight to one of them ... so no task
+// stays queued while an undrained worker of its queue is waiting". The
+// work conservation oracle (every Synchronize call that is still waiting at
+// quiescence, drained/terminating judged by the model) runs in every
+// schedsim test; this profile aims at it: many blocked workers, drains added
+// and removed under them, timers delivered while an Execute holds the lock,
+// cancelled and duplicate Synchronize calls.
+func TestC04NoTaskQueuedWhileWorkerWaits(t *testing.T) {
+	ops := []string{
+		"execute", "execute", "execute", "execute",
+		"syncIdle", "syncIdle", "syncIdle", "sync", "sync", "syncCompleted", "syncCompleted",
+		"addDrain", "addDrain", "removeDrain", "removeDrain", "removeDrain",
+		"cancelSync", "syncDuplicate", "cancelStream", "terminate",
+		"raceTimer", "raceTimer", "raceCancel",
+		"advance", "advanceSmall", "advanceSmall", "tick",
+	}
+	p := &profile{
+		name: "C04", ops: ops, minSteps: 5, maxSteps: 50, instances: []string{"", "a"},
+		queues: defaultQueues, workers: [2]int{2, 5}, actions: [2]int{2, 4}, invDepth: [2]int{0, 2},
+		syncKinds: []string{"auto", "auto", "auto", "idle", "completed"}, finalDrain: true,
+		nontrivial: func(l labels) bool {
+			return l["assignment"] > 0 && (l["drained_worker_waits_while_task_queued"] > 0 || l["drain_removed_existing"] > 0 || l["timer_delivered_under_lock"] > 0)
+		},
+	}
+	runProperty(t, "C04", "schedsim-work-conservation",
+		schedRuleCommon+"oracle: at every quiescence no task is QUEUED in a size class queue in which a Synchronize call is still waiting, unless that worker is drained or terminating according to the AddDrain/RemoveDrain/TerminateWorkers calls made (model-owned, compared both ways with ListDrains and the scheduler's flags); a task handed to a blocked worker is handed to the one the locality rule prescribes (fair profiles). Non-trivial: a task was assigned and a drained worker waited while a task was queued, an existing drain was removed, or a timer was delivered while an Execute held the lock; distinct by script hash", p)
 }
